@@ -188,6 +188,33 @@ fn main() {
         guarded_case(&mut s, name, |s| knot_case(s, &mut r, name, l, true));
         s.eval_only(&format!("knot {}", name), true);
     }
+    // larger non-alternating knots over rings with units that are not self-inverse (Q, Q[H], F3[H]); the engine's
+    // elimination order follows randomly seeded hash maps, so every configuration is built several times
+    {
+        type PQ = Poly<'H', Ratio<i64>>; type P3 = Poly<'H', FF<3>>;
+        let mut big: Vec<String> = table_names(11).into_iter().filter(|n| !n.starts_with('L') && (n.starts_with("K11n") || ["8_19", "8_20", "8_21", "9_42", "9_46", "10_124", "10_132", "10_139", "10_145", "10_146", "10_152", "10_161"].contains(&n.as_str()))).collect();
+        r.shuffle(&mut big);
+        big.truncate(if thorough { 60 } else { 10 });
+        for fixed in ["10_146", "K11n65"] { if !big.iter().any(|x| x == fixed) { big.push(fixed.to_string()); } }
+        let reps = if thorough { 8 } else { 4 };
+        for name in &big {
+            let Some(l0) = load(name) else { continue };
+            if !l0.is_knot() { continue }
+            for l in [l0.clone(), l0.mirror()] {
+                for _ in 0..reps {
+                    let red = r.chance(1, 4);
+                    let desc = format!("{} [{}] reduced={}", link_txt(&l), name, red as u8);
+                    match r.below(4) {
+                        0 | 1 => guarded_case(&mut s, &desc, |s| canon_checks::<PQ>(s, &format!("{} h=H over Q[H]", desc), &l, &PQ::variable(), red)),
+                        2 => { let h = Ratio::from(*r.pick(&[2i64, 3])); guarded_case(&mut s, &desc, |s| canon_checks::<Ratio<i64>>(s, &format!("{} h={} over Q", desc, h), &l, &h, red)) }
+                        _ => guarded_case(&mut s, &desc, |s| canon_checks::<P3>(s, &format!("{} h=H over F3[H]", desc), &l, &P3::variable(), red)),
+                    }
+                    s.eval_only(&format!("big-knot canonical cycles {}", desc), true);
+                    s.count("big-knot.canon");
+                }
+            }
+        }
+    }
     let _ = CrossingType::X;
     s.finish();
 }
